@@ -20,7 +20,7 @@ TEXT = ("Decides the two clauses of reopen-equality that are visible in the shap
         "stage objects (write effect on DataStorage.stage, e.g. the automatic array resolution) is reachable from the "
         "pack write. Does not decide state "
         "equality after reopen for all contents (a round trip over runtime values)."
-        " K2g also flags comparisons between values of a record on the way to a rejection. K2h: no rejection is conditioned on the absence of a key Delta::to_json writes conditionally. K2i: the loader accumulates parsed records by push or under a key that carries the whole revision. K6: serde_json float_roundtrip. K7: parse sites accept the nesting depth the writers emit (open known finding).")
+        " K2g also flags comparisons between values of a record on the way to a rejection. K2h: no rejection is conditioned on the absence of a key Delta::to_json writes conditionally. K2i: the loader accumulates parsed records by push or under a key that carries the whole revision. K6: serde_json float_roundtrip. K7: parse sites accept the nesting depth the writers emit (open known finding). K2j: from the edge that recognises a record by its length the loader's record loop cannot reach its header again without passing an accumulation site (no recognised record is skipped).")
 TECHNIQUE = 'static analysis over rustc MIR: finite abstract interpretation of the pack scanner vs a reference JSON object-boundary machine, writer/reader table extraction for blocks and packs, effect-ordered reachability in commit'
 TRUSTED = ["rustc nightly MIR", "serde_json::to_string emits RFC 8259 JSON (braces, quotes and backslashes unescaped only as structure / inside strings as written)"]
 
@@ -290,6 +290,38 @@ def run(facts, res):
                                   "agree on it (two revisions of one object with the same index: a committed resolution of equally long branches) collapse "
                                   "into one and the reopened replica never learns the other" % (m_.path, fmt(key_t, 5)), m_.loc(t.line))
     res.floor("K2", "sites where the loader accumulates a parsed change record", n_rec, 1)
+    # K2j: no recognised record is skipped: from the edge on which the loader recognises a record by its length, the record loop cannot
+    # move on to the next record without passing an accumulation site (an Err return leaves the loop and rejects the block as a whole -
+    # that is K2g's business). A `continue` for records "on top of a deletion / a resolution marker" drops the re-creation of a deleted
+    # object and every resolution recorded on a deleted leaf: the writer shows them, a reopened replica does not.
+    from ..conds import all_edge_lits as _aelk
+    n_skip = 0
+    for m_ in _mok(facts, r):
+        mcfg = cfg_of(m_)
+        dum = du_of(m_)
+        acc = set()
+        for bi, t in m_.calls():
+            c_ = t.callee
+            if c_ is not None and len(t.args) >= 2 and c_.name in ("push", "push_back", "extend", "insert", "entry") and \
+                    any(x[0] == "agg" and str(x[1]).endswith("melda::Change") for a_ in range(1, len(t.args)) for x in walk(dum.operand_term(t.args[a_], 12))):
+                acc.add(bi)
+        if not acc:
+            continue
+        for e_, l in _aelk(m_, facts):
+            if not (l.kind == "cmp" and l.term[1] == "Eq" and l.truth is True and any(x[0] == "const" and x[1] == "int" and x[2] in (2, 3) for x in (l.term[2], l.term[3])) and
+                    any((x[0] == "call" and callee_name(x) == "len") or (x[0] == "unop" and x[1] == "PtrMetadata") for x in walk(l.term))):
+                continue
+            hdrs = [hb for hb, ht in m_.calls() if ht.callee is not None and ht.callee.name == "next" and mcfg.is_loop_header(hb) and mcfg.dominates(hb, l.edge[0])]
+            if not hdrs:
+                continue
+            n_skip += 1
+            skip = mcfg.reaches(e_, hdrs[-1], avoid=acc)
+            res.instance("K2", "%s: a record of length %s is never skipped (every way back to the record loop passes an accumulation site): %s" % (
+                m_.path, [x[2] for x in (l.term[2], l.term[3]) if x[0] == "const"], not skip), m_.loc(m_.blocks[l.edge[0]].term.line))
+            if skip:
+                res.violation("K2", "loader|record-skipped",
+                              "%s can move on to the next change record without keeping the current one: a record the writer stored (and shows) is "
+                              "missing on every replica that loads the block" % m_.path, m_.loc(m_.blocks[l.edge[0]].term.line))
     # positions
     wpos = {}
     for n, els, ln, bi in arr:
